@@ -57,6 +57,19 @@ def outside_eq_band(K, a: SG.GridSpec, b: SG.GridSpec, rtol=1e-5, atol=1e-8):
     K.assume(E.or_(*terms))
 
 
+def cube_extent(gs, align_corners):
+    return [E.mul(s, E.sub(n, 1) if align_corners else n) for s, n in zip(gs.s, gs.N)]
+
+
+def outside_cube_band(K, a, ac_a, b, ac_b, rtol=1e-5, atol=1e-8):
+    """requires: the cubes of the two grids are not within the allclose band in which Cube.__eq__ treats them as one."""
+    terms = []
+    pairs = list(zip(cube_extent(a, ac_a), cube_extent(b, ac_b))) + list(zip(a.c, b.c)) + list(zip(a.R.ravel(), b.R.ravel()))
+    for x, y in pairs:
+        terms.append(E.lt(E.add(E.const(atol), E.mul(E.const(rtol), E.max_(E.abs_(x), E.abs_(y)))), E.abs_(E.sub(x, y))))
+    K.assume(E.or_(*terms))
+
+
 def as_affine(K, res):
     """Read a returned transformation as the affine map it denotes: (D, D) -> linear part with zero offset,
     (D, D+1) as is.  (Which of the two accepted shapes a function returns is not part of any property.)"""
